@@ -100,6 +100,7 @@ package keeper
 //@ define pendUndKey()  = bytelit(g("x/dogfood/types.PendingUndelegationsByte"))
 
 //@ func (Keeper).AppendOptOutToFinish
+//@   emits mkEv(84, operatorAddr, epoch)
 //@   flag pure=GetOptOutsToFinish
 //@   flag havoc=setOptOutsToFinish
 //@   flag noframe
@@ -116,6 +117,7 @@ package keeper
 //@   before[C16.acatp.source] setConsensusAddrsToPrune requires defined(res_GetConsensusAddrsToPrune_0)
 
 //@ func (Keeper).AppendUndelegationToMature
+//@   emits mkEv(86, recordKey, epoch)
 //@   flag pure=GetUndelegationsToMature
 //@   flag havoc=setUndelegationsToMature
 //@   flag noframe
@@ -161,3 +163,39 @@ package keeper
 //@   ensures[C16.aee.other] identifier != res_GetEpochIdentifier_0 ==> state(ctx) == old(state(ctx)) && traceN() == old(traceN())
 //@ loop #1
 //@   invariant traceN() == old(traceN()) + 1 && traceAt(old(traceN())) == mkEv(81, "pending-optouts", 0)
+
+// ---------------------------------------------------------------------------------------------
+// C18: importing the dogfood genesis restores, for every exported opt-out and undelegation entry, BOTH records the
+// running chain keeps for it: the per-epoch queue entry and the per-operator finish epoch (resp. per-record maturity
+// epoch) that AfterUndelegationStarted and the epoch-end processing look up - with the same epoch.
+//@ func (Keeper).SetOperatorOptOutFinishEpoch
+//@   flag frame_assumed
+//@   modifies store(ctx, "dogfood")
+//@   emits mkEv(85, operatorAddr, epoch)
+//@ func (Keeper).SetUndelegationMaturityEpoch
+//@   flag frame_assumed
+//@   modifies store(ctx, "dogfood")
+//@   emits mkEv(87, recordKey, epoch)
+
+//@ func (Keeper).InitGenesis
+//@   flag noframe
+//@   flag pure=GetEpochInfo,ChainIDWithoutRevision,NewWrappedConsKeyFromHex,ToConsAddr,GetOperatorAddressForChainIDAndConsAddr,Logger
+//@   flag havoc=SetParams,RegisterAVSWithChainID,AppendConsensusAddrToPrune,SetLastTotalPower,ApplyValidatorChanges
+//@ loop #1
+//@   invariant true
+//@ loop #2
+//@   invariant true
+//@ loop #3
+//@   invariant true
+//@   step[C18.ig.optout] traceN() == old(traceN()) + 2 && ev_kind(traceAt(old(traceN()))) == 84 && ev_kind(traceAt(old(traceN()) + 1)) == 85 &&
+//@        ev_id(traceAt(old(traceN()))) == ev_id(traceAt(old(traceN()) + 1)) && ev_num(traceAt(old(traceN()))) == ev_num(traceAt(old(traceN()) + 1))
+//@ loop #4
+//@   invariant true
+//@ loop #5
+//@   invariant true
+//@ loop #6
+//@   invariant true
+//@ loop #7
+//@   invariant true
+//@   step[C18.ig.maturity] traceN() == old(traceN()) + 2 && ev_kind(traceAt(old(traceN()))) == 86 && ev_kind(traceAt(old(traceN()) + 1)) == 87 &&
+//@        ev_id(traceAt(old(traceN()))) == ev_id(traceAt(old(traceN()) + 1)) && ev_num(traceAt(old(traceN()))) == ev_num(traceAt(old(traceN()) + 1))
